@@ -276,7 +276,8 @@ class Check:
         if out:
             print(out[-4000:], flush=True)
         self.write_evidence(extra={"tool_error": msg})
-        sys.exit(2)
+        # violations already reported (each with its VIOLATION line and replay file) are not masked by a later tool error
+        sys.exit(1 if self.violations > 0 else 2)
 
     # -- model checking bookkeeping
     def add_mc(self, r, what):
